@@ -191,6 +191,18 @@ def maxEulerStepCbCstr (keys : List σ) (comps : List (EqSolve.Comp α)) (rs : L
 def eulerNext (y : List α) (h : α) (f : List α) : List α :=
   List.zipWith (fun yi fi => yi + h * fi) y f
 
+/-- `n` explicit Euler steps `y ← y + h·f(y)`, each of the length `h = max_euler_step_cb(x, y)` the callback advertises at the
+    current state (the use the callback is advertised for; not chempy code) -/
+def eulerIter (keys : List σ) (comps : List (EqSolve.Comp α)) (rs : List (Reaction σ α)) : Nat → List α → Except Err (List α)
+  | 0, y => .ok y
+  | n + 1, y =>
+    match maxEulerStepCb keys comps rs y with
+    | .error e => .error e
+    | .ok h =>
+      match fvec keys rs y with
+      | .error e => .error e
+      | .ok f => eulerIter keys comps rs n (eulerNext y h f)
+
 end Pipeline
 
 section Linear
